@@ -33,12 +33,14 @@ TIERS = {
 }
 
 ASSUME = [
-    "design model: max_iter <= 4 (one run) / <= 2 (quick) or 3 (thorough) for two consecutive runs on a fresh or shared strategy "
-    "object, cost abstracted to 3 levels, rho to 12 representatives; the strategy state is explored in integer exponents and the "
-    "abstraction is checked against the rational operators used on the traces (ASSUME StepCommutes)",
-    "Monotone is a theorem of the model only under the environment assumptions A1 (pred_red <= 0 => null step), A2 (rho = "
-    "actu_red/pred_red, actu_red > 0 iff the candidate is better), A3 (r_n = 0 => dx = 0); A2 is checked on every recorded "
-    "iteration, A1 and A3 are counted (cells A1|*, A3|*); on the real code monotonicity is decided directly on the callback costs",
+    "design model: max_iter <= 4 (one run) / <= 2 (quick) or 3 (thorough) for two consecutive runs on a fresh or re-used strategy "
+    "object that may arrive with a collapsed or grown radius; cost abstracted to 3 levels, rho to 12 representatives (arbitrary, not "
+    "tied to actu_red/pred_red); the strategy state is explored in integer exponents and the abstraction is checked against the "
+    "rational operators used on the traces (ASSUME StepCommutes)",
+    "Monotone is a theorem of the model under the environment assumptions A2 (the sign of actu_red is the sign of the cost "
+    "comparison) and A3 (r_n = 0 => dx = 0) only; both are validated on every recorded iteration (A2: actu_red against the "
+    "callback's cost; A3 counted in cells A3|*); on the real code monotonicity is decided directly on the callback costs",
+    "termination rests on the loop bound max_iter alone (a rejected iteration may grow the radius: no other variant exists)",
     "rounding allowance of C09.monotone: 64 ulp of max(previous cost, fscale), fscale = magnitude of the terms of one residual "
     "evaluation declared by the problem generator",
     "minimiser clause: linear least squares (exact rational normal equations) and noise-free / 1e-7-perturbed alignment "
@@ -51,26 +53,28 @@ ASSUME = [
 MODEL_MUTANTS = [
     # (name, substitutions in Minimize.cfg, property that must be violated)
     ("accept_always", {'Variant = "coded"': 'Variant = "accept_always"'}, "Monotone"),
-    ("rho_gt_minus1", {'Variant = "coded"': 'Variant = "rho_gt_minus1"'}, "Monotone"),
+    ("accept_pred_red_only (the rule before f247895)", {'Variant = "coded"': 'Variant = "accept_pred_red_only"'}, "Monotone"),
+    ("accept_pred_red_only, rho tied to actu_red/pred_red", {'Variant = "coded"': 'Variant = "accept_pred_red_only"', "TieRho = FALSE": "TieRho = TRUE"}, "Monotone"),
+    ("no_reset (reset call of 17b931c missing)", {'Variant = "coded"': 'Variant = "no_reset"'}, "FreshAtStart"),
     ("assign_before_test", {'Variant = "coded"': 'Variant = "assign_before_test"'}, "Callbacks"),
     ("loop_le", {'Variant = "coded"': 'Variant = "loop_le"'}, "Bound"),
     ("status_default_ptol", {'Variant = "coded"': 'Variant = "status_default_ptol"'}, "StatusContract"),
     ("reduce_not_reset", {'Variant = "coded"': 'Variant = "reduce_not_reset"'}, "ReduceRestart"),
-    ("drop_A1", {"AssumeA1 = TRUE": "AssumeA1 = FALSE"}, "Monotone"),
     ("drop_A2", {"AssumeA2 = TRUE": "AssumeA2 = FALSE"}, "Monotone"),
     ("drop_A3", {"AssumeA3 = TRUE": "AssumeA3 = FALSE"}, "Monotone"),
 ]
-# reachability witnesses: "invariants" that TLC must violate (non-vacuity of the model's properties)
-REACH = ["NeverFtol", "NeverPtol", "NeverMaxIters", "NeverRejected", "NeverAcceptedAtZeroResidual", "NeverSecondRunOnSharedStrategy"]
+# reachability witnesses: "invariants" / action properties that TLC must violate (non-vacuity of the model's properties)
+REACH = ["NeverFtol", "NeverPtol", "NeverMaxIters", "NeverRejected", "NeverAcceptedAtZeroResidual", "NeverDirtyArrival"]
+REACH_ACTION = ["NeverRejectedWhileRadiusGrows"]   # checked with rho tied to actu_red/pred_red
 
 
 def required_cells(tier):
-    req = ["cb|initial", "cb|step", "A3|holds", "run|no-iterations", "run|with-rejections", "ptol|1.000000e-03",
+    req = ["cb|initial", "cb|step", "A3|holds", "run|no-iterations", "run|with-rejections", "ptol|1.000000e-03", "iter|disney|rejected:actu_red<0",
            "rho|nan", "rho|<=0", "rho|>1e-3", "pred_red|>0", "pred_red|=0",
            "end|status|0", "end|status|1", "end|status|2", "exit|2|at-max_iter", "exit|1|before", "exit|0|before"]
     for k in ("ceres", "disney"):
-        req += [f"strategy|{k}|fresh", f"strategy|{k}|shared", f"iter|{k}|accepted:take_step", f"iter|{k}|rejected",
-                f"iter|{k}|accepted:r_n=0"]
+        req += [f"strategy|{k}|fresh", f"strategy|{k}|shared", f"iter|{k}|accepted:take_step", f"iter|{k}|rejected:strategy",
+                f"iter|{k}|accepted:r_n=0", f"reset|arrived-dirty|{k}"]
     req += ["mode|num", "mode|ana", "mode|def", "shape|static", "shape|dynamic", "shape|multi", "shape|sparse"]
     req += [f"max_iter|{m}" for m in (0, 1, 2, 5, 1000)]
     req += [f"ftol|1.000000e-{k}" for k in ("03", "06", "12")]
@@ -82,8 +86,8 @@ def required_cells(tier):
                 f"minimiser|grp|multi|{mode}"]
     req += ["minimiser|grp|sparse|ana", "minimiser|grp|sparse|def", "minimiser|lin|sparse|def"]
     if tier == "thorough":
-        req += ["iter|ceres|accepted:pred_red<=0", "iter|disney|accepted:pred_red<=0", "exit|0|at-max_iter", "exit|1|at-max_iter",
-                "rho|(0,1e-3]", "pred_red|<0"]
+        req += ["iter|ceres|accepted:pred_red<=0", "iter|disney|accepted:pred_red<=0", "iter|ceres|rejected:actu_red<0",
+                "iter|disney|rejected:actu_red<0", "exit|0|at-max_iter", "exit|1|at-max_iter", "pred_red|<0"]
     return req
 
 
@@ -115,6 +119,9 @@ def run_models(oc, tier, workdir):
     for inv in REACH:
         txt = shared.replace("INVARIANT TypeOK", f"INVARIANT TypeOK\nINVARIANT {inv}")
         jobs.append((f"reachability {inv}", txt, 1, 600, inv))
+    for ap in REACH_ACTION:
+        txt = small.replace("PROPERTY Decreases", f"PROPERTY Decreases\nPROPERTY {ap}").replace("TieRho = FALSE", "TieRho = TRUE")
+        jobs.append((f"reachability {ap}", txt, 1, 600, ap))
     info = []
 
     def one(j):
@@ -137,7 +144,7 @@ def run_models(oc, tier, workdir):
                     oc.bad_step({"clause": "C09.model", "op": "model", "stratum": name, "err": m.group(0) if m else "violated", "tol": ""},
                                 {"family": "optim", "model": "Minimize", "cfg": txt, "tlc_tail": out[-3000:]})
             else:
-                hit = re.search(r"(Invariant|property) " + prop + " is violated", out) is not None
+                hit = re.search(r"(Invariant|property) " + re.escape(prop) + " is violated", out) is not None
                 info.append({"model": "Minimize", "config": name, "distinct_states": r["distinct"],
                              "result": (f"witness found by TLC ({prop})" if name.startswith("reachability") else
                                         f"rejected by TLC ({prop} violated) as required") if hit else "NOT rejected"})
@@ -316,7 +323,7 @@ def check(prop, tier, seed, replay=None):
         oc.extra["design_models"] = model_info
         oc.extra["runs_of_minimize"] = oc.cov.get("cb|initial", 0)
         oc.extra["iterations_validated"] = sum(v for k, v in oc.cov.items() if k.startswith("iter|"))
-        oc.extra["environment_assumptions_observed"] = {k: v for k, v in oc.cov.items() if k[:3] in ("A1|", "A3|")}
+        oc.extra["environment_assumptions_observed"] = {k: v for k, v in oc.cov.items() if k.startswith(("A3|", "pred_red<=0-step|", "reset|"))}
         oc.extra["required_cells"] = len(required)
         rule = ("states/transitions: TLC's counts over the Minimize design-model runs (all behaviours in scope) plus the trace-validation "
                 "runs; one evaluation = one recorded event (begin / callback / hook iteration / exit / end) judged by TraceOptim; "
